@@ -120,7 +120,12 @@ class DFXPReader(BaseReader):
         for div in dfxp_document.find_all('div'):
             lang = div.attrs.get('xml:lang', default_language)
 
-            caption_dict[lang] = self._convert_div_to_caption_list(div)
+            caption_list = self._convert_div_to_caption_list(div)
+            if lang in caption_dict:
+                # several divs of one language: keep the cues of all of them
+                caption_dict[lang].extend(caption_list)
+            else:
+                caption_dict[lang] = caption_list
 
         for style in dfxp_document.find_all('style'):
             id_ = style.attrs.get('xml:id') or style.attrs.get('id')
